@@ -12,6 +12,7 @@ CONSTANTS
   FollowRetries = TRUE
   FollowAppend = TRUE
   ResyncChecksRound = TRUE
+  PinsOperatorHash = TRUE
   MaxAgg = 2
   QCap = 3
   Linger = TRUE
